@@ -868,8 +868,10 @@ def run_site_tables(ctx):
         shutil.rmtree(d, ignore_errors=True)
 
 
-def run_replay_mc(ctx, lattices, maxdecl, name, trace_items, stride=1, profile='mc', need_all_actions=True):
-    res, dump, d = tlc.mc('MPOGraph', decl_cfg(lattices, maxdecl, profile), dump=True, workers=WORKERS, timeout=TLC_TIMEOUT)
+def run_replay_mc(ctx, lattices, maxdecl, name, trace_items, stride=1, profile='mc', need_all_actions=True, trace_all=False,
+                  invariants=INVARIANTS):
+    res, dump, d = tlc.mc('MPOGraph', decl_cfg(lattices, maxdecl, profile, invariants=invariants), dump=True, workers=WORKERS,
+                          timeout=TLC_TIMEOUT)
     ctx.add_mc(name, res)
     if res.violated:
         ctx.violation(dict(kind='mc', spec='ModelDecl', invariant=res.violated[0]),
@@ -888,7 +890,7 @@ def run_replay_mc(ctx, lattices, maxdecl, name, trace_items, stride=1, profile='
             nrep += 1
             replay_hist(ctx, st['cfg'], st['hist'], ('mc', n), only_last=True)
             decls = [x['l']['d'] for x in st['hist']]
-            if _h(ctx.seed, 'tr', n) % 4 == 0:
+            if trace_all or _h(ctx.seed, 'tr', n) % 4 == 0:
                 trace_items.append((st['cfg'], decls, bool(_h(ctx.seed, 'tre', n) % 2), None))
             if nrep in (5, 60):
                 ctx.sample(dict(spec='ModelDecl', cfg=tlaval.to_jsonable(st['cfg']), decls=tlaval.to_jsonable(decls),
@@ -1005,6 +1007,15 @@ def check(ctx):
         run_replay_mc(ctx, 'LatticesMC', 1, 'ModelDecl-mc', trace_items, stride=3 if quick else 1)
         if not quick:
             run_replay_mc(ctx, 'LatticesOne', 2, 'ModelDecl-mc-depth2', trace_items, stride=3, need_all_actions=False)
+    if not only or 'long' in only:
+        # long multi-site couplings on infinite chains with a one/two-site unit cell (strings that start outside the
+        # first unit cell and wrap around it); every one of these models also goes to the TRACE stage
+        long_items = []
+        run_replay_mc(ctx, 'LatticesLong', 1, 'ModelDecl-long', long_items, stride=1, profile='long', need_all_actions=False,
+                      trace_all=True, invariants=['TermViewEqualsOpView', 'StoredHalf', 'GraphSemantics'])
+        if not long_items:
+            raise core.MachineryError('no long multi-site coupling was generated')
+        trace_items.extend(long_items)
     if not only or 'sim' in only:
         run_replay_sim(ctx, 'LatticesQuick' if quick else 'LatticesFull', 3, 100 if quick else 2400, trace_items)
     if not only or 'trace' in only:
